@@ -9,6 +9,7 @@ The oracle restates the property on the library alone (object identities, public
 """
 import copy
 import pickle
+import re
 import random
 
 from ..core import PropCheck, Case, sx, enc, opt, run_driver
@@ -122,6 +123,13 @@ def build_holder(d):
     html = render_html(d['tree'])
     if d.get('doctype'):
         html = '<!%s>' % d['doctype'] + html
+    tail = d.get('tail')
+    if tail:
+        # the source stops in the middle of a construct while the root is still open: the tokenizer keeps that tail
+        # buffered for ever (the library never close()s it) and the tree is the same; nothing may flush it later
+        m = re.search(r'</([a-z0-9]+)>$', html)
+        if m and m.group(1) != WRAPPER:
+            html = html[:m.start()] + tail
     p.parseStr(html)
     return p
 
